@@ -42,4 +42,13 @@ def nTradingDatesUntil (cal : List Nat) (d : Nat) (n : Nat) : List Nat :=
 /-- `count_trading_dates(start, end)` (an integer: negative when the range is inverted) -/
 def countTradingDates (cal : List Nat) (s e : Nat) : Int := (ssRight cal e : Int) - (ssLeft cal s : Int)
 
+/-- insertion into a strictly increasing list; a date already present is not added again -/
+def insertSorted (x : Nat) : List Nat → List Nat
+  | [] => [x]
+  | y :: ys => if x < y then x :: y :: ys else if x = y then y :: ys else y :: insertSorted x ys
+
+/-- `TradingDatesMixin.__init__`: the merged calendar of all registered calendars (exchange, inter-bank, …) is the SORTED SET UNION of their days;
+it is what `get_trading_dates` answers from and therefore what the event source walks through -/
+def mergeCals (cs : List (List Nat)) : List Nat := (cs.flatten).foldr insertSorted []
+
 end RQ.Q
